@@ -16,7 +16,7 @@
          parseNode, parseXML, consume(const char * ), readXML's buffer set-up (size + 1, zero filled) *)
 From Coq Require Import String.
 From Common Require Import Prelude.
-From C16 Require Import Model FactsDefs FactsCheck.
+From C16 Require Import Model Render WriterModel FactsDefs FactsCheck FactsWriter.
 From C16.gen Require Import Facts.
 Local Open Scope string_scope.
 
@@ -102,3 +102,44 @@ Print Assumptions facts_consume_word.
 Theorem facts_readXML_buffer : f_readXML = MkRx 1 0 true true true true.
 Proof. reflexivity. Qed.
 Print Assumptions facts_readXML_buffer.
+
+(* ---- Writer members and Node accessors: the extracted statement lists, interpreted (fprintf = %s
+   substitution of C strings, the State stack as in the source), ARE the steps of WriterModel.v *)
+Theorem facts_w_spaces : forall st,
+  wexec [] f_w_spaces st = WR (MkW (w_out st ++ indent (length (w_stack st)))%list (w_stack st)).
+Proof. change f_w_spaces with x_w_spaces. exact FactsWriter.spaces_sem. Qed.
+Print Assumptions facts_w_spaces.
+
+Theorem facts_w_writeHeader : forall v st, wexec [("version", v)] f_w_writeHeader st = of_model (wstep (WHeader v) st).
+Proof. change f_w_writeHeader with x_w_writeHeader. exact FactsWriter.writeHeader_sem. Qed.
+Print Assumptions facts_w_writeHeader.
+
+Theorem facts_w_writeFooter : forall st, wexec [] f_w_writeFooter st = of_model (wstep WFooter st).
+Proof. change f_w_writeFooter with x_w_writeFooter. exact FactsWriter.writeFooter_sem. Qed.
+Print Assumptions facts_w_writeFooter.
+
+Theorem facts_w_openNode : forall ty st, wexec [("type", ty)] f_w_openNode st = of_model (wstep (WOpen ty) st).
+Proof. change f_w_openNode with x_w_openNode. exact FactsWriter.openNode_sem. Qed.
+Print Assumptions facts_w_openNode.
+
+Theorem facts_w_writeProperty : forall n v st,
+  wexec [("name", n); ("value", v)] f_w_writeProperty st = of_model (wstep (WProp n v) st).
+Proof. change f_w_writeProperty with x_w_writeProperty. exact FactsWriter.writeProperty_sem. Qed.
+Print Assumptions facts_w_writeProperty.
+
+Theorem facts_w_closeNode : forall st, wexec [] f_w_closeNode st = of_model (wstep WClose st).
+Proof. change f_w_closeNode with x_w_closeNode. exact FactsWriter.closeNode_sem. Qed.
+Print Assumptions facts_w_closeNode.
+
+(* the constructor stores its two FILE pointers and starts with an empty stack; a new State has hasContent = false *)
+Theorem facts_w_ctor : f_w_ctor = MkWc true true true.
+Proof. reflexivity. Qed.
+Print Assumptions facts_w_ctor.
+
+(* hasProp = find != end; getProp(k, fallback) = found value or fallback; getProp(k) = getProp(k, empty) *)
+Theorem facts_node_accessors : forall k fb m,
+  nf_has f_n_hasProp k m = Some (has_prop k m) /\
+  nf_get f_n_getProp2 k fb m = Some (get_prop_or k fb m) /\
+  nf_get f_n_getProp1 k fb m = Some (get_prop k m).
+Proof. intros. repeat split; reflexivity. Qed.
+Print Assumptions facts_node_accessors.
